@@ -1584,6 +1584,23 @@ fn slice_rechunk_cases(ctx: &mut Ctx) {
     }
 }
 
+/// write() into sinks that fill up: room for exactly / one less / one more than / half of / none of the
+/// ceil(len/8) bytes, every number of bytes per call, the harness's own sink and std's `&mut [u8]` and Cursor
+fn sink_cases(ctx: &mut Ctx, a: &Val, all: bool) {
+    let nb = ((a.len + 7) / 8) as u128;
+    let caps = [nb, nb.saturating_sub(1), nb + 1, nb / 2, 0, ctx.rng.below(nb as u64 + 1) as u128, nb + 1 + ctx.rng.below(9) as u128, nb.saturating_sub(8)];
+    for (i, cap) in caps.iter().enumerate() {
+        if !all && i >= 3 && !ctx.rng.chance(1, 3) {
+            continue;
+        }
+        let e = ctx.rng.below(2) as u128;
+        let chunk = ctx.rng.pick(&[1u128, 2, 3, 7, 8, 9, 64, 4096, 1 << 40]);
+        ctx.emit(Case::new(38).arg(e).arg(*cap).arg(chunk).val(a.clone()));
+        let f = 1 + ctx.rng.below(2) as u32;
+        ctx.emit(Case::new(38).form(f).arg(e).arg(*cap).arg(1 << 40).val(a.clone()));
+    }
+}
+
 fn gen_c13(ctx: &mut Ctx) {
     // serialisation of vectors longer than any internal buffer (4 KiB = 32768 bits), both byte orders, every residue class
     // of the length modulo 64 that matters (0, 1, 4, 56, 57, 63)
@@ -1595,12 +1612,18 @@ fn gen_c13(ctx: &mut Ctx) {
                 ctx.emit(Case::new(22).arg(e).val(a.clone()));
                 ctx.emit(Case::new(23).arg(e).arg(0).val(a.clone()));
             }
+            if len == 32769 || len == 40057 {
+                sink_cases(ctx, &a, false);
+            }
         }
     }
     let n = ctx.scale(100, 1000);
     for k in 0..NKINDS {
-        for _ in 0..n {
+        for i in 0..n {
             let a = rand_val(ctx, k);
+            if i % 4 == 0 {
+                sink_cases(ctx, &a, i % 16 == 0);
+            }
             ctx.emit(Case::new(22).arg(ctx.rng.below(2) as u128).val(a.clone()));
             ctx.emit(Case::new(23).arg(ctx.rng.below(2) as u128).arg(ctx.rng.below(4) as u128).val(a));
             // from_bytes: around capacity
